@@ -22,6 +22,7 @@ def CmdMS (cap : Nat) : Cmd → Prop
 def pcFresh : PC → Option Nat
   | .getCount i _ => some i
   | .getMax i _ _ => some i
+  | .getMaxCas i _ _ _ => some i
   | .getTotal i _ => some i
   | .apPlace i _ => some i
   | _ => none
